@@ -55,7 +55,9 @@ for name, ty in [("ri", "int"), ("ru", "uint"), ("rd", "double"), ("rb", "bool")
 signals += [meth("fired"), meth("firedWith", ("int", "QString")),
             meth("firedDefault"), meth("firedDefault", ("int",)),
             meth("firedObj", ("VObj*",)), meth("firedBool", ("bool",)), meth("firedMode", ("VObj::Mode",)),
-            meth("amb", ("int",)), meth("amb", ("QString",))]
+            meth("amb", ("int",)), meth("amb", ("QString",)),
+            meth("tri"), meth("tri", ("int",)), meth("tri", ("QString",)),
+            meth("chain3"), meth("chain3", ("int",)), meth("chain3", ("int", "QString"))]
 slots = [meth("done", ("int",)), meth("say", ("QString",)), meth("take", ("VObj*",)), meth("act"),
          meth("sayBool", ("bool",)), meth("sayDouble", ("double",)), meth("sayUint", ("uint",)),
          meth("sayMode", ("VObj::Mode",)), meth("sayList", ("QStringList",))]
